@@ -122,7 +122,7 @@ var builtinScalars = []string{"Int", "Float", "String", "Boolean", "ID"}
 
 var (
 	typeNamesPlain   = []string{"A", "B", "C", "D", "Node", "Named", "Item", "User", "T1", "T2", "_X", "X_y", "Z9", "Str", "Inty", "Thing", "Kind", "Ab", "AB", "Date"}
-	typeNamesHostile = []string{"type", "input", "on", "Type", "query", "enum", "scalar", "union", "interface", "directive", "extend", "schema", "implements", "fragment", "True", "Null", "repeatable", "mutation"}
+	typeNamesHostile = []string{"type", "input", "on", "Type", "query", "enum", "scalar", "union", "interface", "directive", "extend", "implements", "fragment", "True", "Null", "repeatable", "mutation"}
 	fieldNames       = []string{"id", "name", "a", "b", "c", "x1", "_y", "value", "items", "type", "on", "query", "input", "true", "null", "fragment", "ofType", "kind", "fields", "node"}
 	argNames         = []string{"x", "y", "z", "first", "after", "if", "input", "type", "on", "_a", "includeDeprecated", "name", "reason"}
 	enumValueNames   = []string{"A", "B", "C", "RED", "GREEN", "ACTIVE", "on", "type", "_x", "V1", "query", "enum", "Null", "TRUE"}
@@ -488,7 +488,11 @@ func genModel(t *rapid.T, rawStrings, shadowRoots, nameClash bool) *model {
 	for _, s := range builtinScalars {
 		taken[s] = true
 	}
-	names := newPicker(t, "tn", typeNamesPlain, typeNamesHostile)
+	hostile := typeNamesHostile
+	if nameClash {
+		hostile = append(append([]string{}, hostile...), "schema") // collides with the schema definition in the repo's index
+	}
+	names := newPicker(t, "tn", typeNamesPlain, hostile)
 	add := func(kind, name string) *typeDef {
 		td := &typeDef{Kind: kind, Name: name}
 		m.types = append(m.types, td)
@@ -520,13 +524,17 @@ func genModel(t *rapid.T, rawStrings, shadowRoots, nameClash bool) *model {
 		m.explicitSchema = true
 	}
 
+	lo := 0
+	if chance(t, 55, "rich") { // at least one of every kind
+		lo = 1
+	}
 	nScalar := rapid.IntRange(0, 2).Draw(t, "n-scalar")
-	nEnum := rapid.IntRange(0, 2).Draw(t, "n-enum")
-	nInput := rapid.IntRange(0, 3).Draw(t, "n-input")
-	nIface := rapid.IntRange(0, 3).Draw(t, "n-iface")
+	nEnum := rapid.IntRange(lo, 2).Draw(t, "n-enum")
+	nInput := rapid.IntRange(lo, 3).Draw(t, "n-input")
+	nIface := rapid.IntRange(lo, 3).Draw(t, "n-iface")
 	nObj := rapid.IntRange(0, 3).Draw(t, "n-object")
-	nUnion := rapid.IntRange(0, 2).Draw(t, "n-union")
-	nDir := rapid.IntRange(0, 3).Draw(t, "n-dir")
+	nUnion := rapid.IntRange(lo, 2).Draw(t, "n-union")
+	nDir := rapid.IntRange(lo, 3).Draw(t, "n-dir")
 
 	for i := 0; i < nScalar; i++ {
 		add("SCALAR", names.next(t, taken))
@@ -605,6 +613,11 @@ func genModel(t *rapid.T, rawStrings, shadowRoots, nameClash bool) *model {
 	}
 	for _, td := range m.types {
 		if td.Kind != "OBJECT" || len(ifaces) == 0 {
+			continue
+		}
+		if td.Name == m.subscription {
+			// the repo's schema validation rejects a subscription root type that implements an
+			// interface ("does not implement field '__typename'"): not this property's business
 			continue
 		}
 		var picked []string
@@ -694,7 +707,7 @@ func genModel(t *rapid.T, rawStrings, shadowRoots, nameClash bool) *model {
 		m.dirs = append(m.dirs, d)
 	}
 	m.schemaDesc = descr{}
-	if m.explicitSchema && chance(t, 30, "schema-desc") {
+	if m.explicitSchema && chance(t, 60, "schema-desc") {
 		m.schemaDesc = m.genDescr("schema")
 	}
 	m.applyDirectives()
